@@ -43,6 +43,22 @@ is in.  Legacy Gibbs: sample(N, Nb), N in 1..dim+2, is one column per state and 
 for {10,12}x{0,2,5}; legacy Gibbs and HybridGibbs: N then M, warm-up, immutability of returned chains.  The HybridGibbs
 set-ups together use every sampler class of cuqi.experimental.mcmc as a block sampler.
 
+*Initial point and call-back x the route by which they reach the sampler* (constructor arguments in non-default form).
+Stateless interface (x0 cells): EVERY class of cuqi.sampler that has the sample(N, Nb) interface (MH, CWMH, pCN, ULA, MALA,
+NUTS, LinearRTO, RegularizedLinearRTO, UGLA) x route in {x0 and callback are constructor arguments, both assigned to the
+constructed object, constructed with another point / another call-back and then both assigned, no x0 (default)} x method in
+{sample, sample_adapt}: the chain begins with the initial point in effect - the point the HARNESS handed over, not the one
+read back from the sampler -, the call-back gets every produced state with its index, a second run of the same object is a
+new chain that begins with the initial point again (indices restart, the chain returned by the first run is not altered),
+the burn-in run (N, Nb) is the tail of the run (N+Nb, 0) of a twin on the same stream; step(x) (the route by which the legacy
+Gibbs sampler sets the initial point of a block) == the second state of sample(2, 0) of a sampler constructed with x0 = x.
+The classes without that interface (Conjugate, ConjugateApprox, Gibbs) are covered by the legacy Gibbs cells, whose set-ups
+together use every class of cuqi.sampler as a block.  Stateful interface (in every stateful cell): initial_point = v
+(non-default, feasible) and the call-back given by {constructor, assignment before first use, re-assignment, constructor
+without call-back}: after initialize() the sampler is at v, the runs warmup(k);sample(n) of all routes agree (chain, state,
+call-back log, stream), after reinitialize() the sampler is at v again.  HybridGibbs: before its first transition the sampler
+is at the initial points its block samplers were constructed with.
+
 *Burn-in / thinning product*: on the chain recorded by the longest uninterrupted run of every cell (Samples of each
 sampler of both interfaces, JointSamples of HybridGibbs, dict of Samples of legacy Gibbs) burnthin(Nb, Nt) for all
 Nb in 0..len, Nt in 1..4 (positional and keyword call) must return exactly the stored states Nb, Nb+Nt, ... in order
@@ -76,6 +92,12 @@ RULE = ("stateful cells = sampler set-up x target x warm-up length k x generator
         "stream; record cells = set-up x generator seed with the product (total number of recorded states T in 1..dim+2) x "
         "(warm-up 0,1,2) x (single calls / one call) inside: get_samples() state by state against the states the harness "
         "copied from current_samples / the call-back when they were produced. "
+        "constructor arguments: stateless x0 cells = class of cuqi.sampler x generator seed with the product (route of x0 and "
+        "call-back: constructor / assigned / re-assigned / default) x (sample, sample_adapt) x (first run, second run of the "
+        "same object, burn-in runs against a twin) inside, oracle = the initial point the harness handed over, plus step(x) "
+        "against sample(2,0) from x0=x; in every stateful cell (route of initial_point and call-back: constructor / assigned / "
+        "re-assigned / no call-back) -> state after initialize() and after reinitialize() == the point handed over, all routes "
+        "make the same run; HybridGibbs record cells: state before the first transition == block initial points handed over. "
         "A cell is non-trivial when the reference chain moves (at least two distinct states) and at least one "
         "history with a crash point was compared")
 BOUND = {
@@ -85,17 +107,24 @@ BOUND = {
              "classes (Direct, Conjugate, ConjugateApprox, MH, CWMH, PCN, ULA, MALA, NUTS, LinearRTO, RegularizedLinearRTO, "
              "UGLA), same k, <=4 transitions, <=2 reads (136 per cell) + 38 with one sample(0); stateless: 9 sampler "
              "classes in 11 set-ups, sample(N,Nb) on "
-             "{1..4}x{0..3}, sample_adapt on {10,12}x{0,2,5}; legacy Gibbs: 2 set-ups, all call sequences with parts "
+             "{1..4}x{0..3}, sample_adapt on {10,12}x{0,2,5}; legacy Gibbs: 7 set-ups, all call sequences with parts "
              "1..3 and total <=4, warm-up 0..2 in the first call; burnthin: Nb in 0..len, Nt in 1..4, 2 call styles, on "
              "chains of 4-7 (stateful, HybridGibbs), 8 and 12 (stateless), 4 (legacy Gibbs) states; "
              "reinitialize after 9 kinds of stand-alone use per stateful cell, and of every block sampler object (all 12 "
              "classes) after Gibbs runs warmup(k);sample(1), warmup(k);sample(4), warmup(k+1) per HybridGibbs cell; "
              "record cells: 8 HybridGibbs set-ups (block dimensions 1,2,3; T in 1..max dim+2, warm-up 0..2, stepwise and "
              "in one call) and 20 stateful set-ups (T in 1..dim+2, warm-up 0..2), 1 generator seed; stateless sample(N,Nb) "
-             "grid now N in 1..5; legacy Gibbs shape/prefix for N in 1..4 (= dim+2)",
+             "grid now N in 1..5; legacy Gibbs shape/prefix for N in 1..4 (= dim+2); legacy Gibbs now 7 set-ups whose blocks "
+             "use all 11 concrete classes of cuqi.sampler (MH, CWMH, pCN, ULA, MALA, NUTS, LinearRTO, RegularizedLinearRTO, UGLA, "
+             "Conjugate, ConjugateApprox); x0 cells: 9 classes (all of cuqi.sampler with sample/x0/callback) x 4 routes x "
+             "{sample: runs of 3 then 4 states, burn-in (3,2),(2,1); sample_adapt: 10 then 12, burn-in (10,2),(10,5)} + step(x) "
+             "from 2 constructions, 2 distinct non-default feasible points per class, 1 generator seed; stateful cells: 4 routes "
+             "of (initial_point, callback) per cell for all 12 classes (non-default point for every class); HybridGibbs: "
+             "non-default initial points for all 12 block classes (3 Conjugate blocks keep the default)",
     "thorough": "as quick with k in {0,1,2,3}, 3 generator seeds, <=5 sampling transitions (2269 histories per stateful "
                 "cell, 293 per HybridGibbs cell, +76 with one sample(0)), legacy Gibbs total <=5; block samplers "
-                "re-initialised after Gibbs runs warmup(k);sample(1|5), warmup(k+1); record cells with 3 generator seeds",
+                "re-initialised after Gibbs runs warmup(k);sample(1|5), warmup(k+1); record cells and x0 cells with 3 generator "
+                "seeds",
 }
 ASSUMPTIONS = [
     "the oracle is differential: the uninterrupted run of the same sampler on the same stream (the kernels themselves "
@@ -113,6 +142,16 @@ ASSUMPTIONS = [
     "'the same random stream' is read as: after N-then-M the global numpy generator (MT19937 key, position, cached "
     "normal) is in the state it has after N+M, so that any continuation sees the same numbers; only compared when "
     "the chains agree; draws from other generators (scipy's) are not counted",
+    "'the initial point' of a run is the point the user handed over last (constructor argument x0 / initial_point, or a later "
+    "assignment to that public attribute before the run); only when none was handed over, the point the sampler announces "
+    "(attribute x0) after construction - no particular default value is demanded; assigning x0 / initial_point / callback "
+    "on a constructed, not yet used object is read as equivalent to passing them to the constructor; in the stateful "
+    "interface the state after initialize() / reinitialize() (current_point) is the observable of 'the configuration it was "
+    "constructed with'; initial points used are feasible for the constrained targets and differ from the ones- and "
+    "zeros-vectors the classes default to",
+    "cuqi.sampler.Conjugate, ConjugateApprox (step() only) and Gibbs (no x0, no call-back; its chain holds the states after "
+    "each sweep, not the initial point) have no initial-point / call-back argument: only their use inside the legacy Gibbs "
+    "cells is decided; sample_adapt of MH/CWMH/pCN is run with N >= 10 only (their adaptation interval is int(0.1*N))",
     "thinning is not an option of either sampling interface: the thinning values of the quantifier are exercised "
     "through burnthin(Nb, Nt) of the recorded chain objects (Samples / JointSamples / legacy Gibbs dict of Samples); "
     "oracle is the slice stored[Nb::Nt] of the states recorded at production time; a raise is accepted when that "
@@ -324,42 +363,56 @@ def _make_stateful(setup, cat, callback):
     return getattr(mcmc, cls)(TARGETS[tid](cat), callback=callback, **kw())
 
 
+def _hybrid_spec(setup):
+    """({parameter: (block sampler class, constructor arguments)}, steps) of a HybridGibbs set-up (the harness keeps the
+    constructor arguments - in particular the initial points - it hands over)."""
+    tid = setup.split("/")[1].split("-")[0]
+    if tid == "hier":
+        spec = {"x": ("LinearRTO", dict(maxit=4, initial_point=X0[2].copy())), "d": ("Conjugate", {}), "l": ("Conjugate", {})}
+        steps = None
+    elif tid == "reg_hier":
+        spec = {"x": ("RegularizedLinearRTO", dict(maxit=25, initial_point=np.array([0.5, 0.25]))),
+                "d": ("Conjugate", dict(initial_point=np.array([2.0]))), "l": ("Conjugate", {})}
+        steps = None
+    elif tid == "lmrf_hier":
+        spec = {"x": ("UGLA", dict(maxit=4, initial_point=X0[3].copy())), "s": ("ConjugateApprox", dict(initial_point=np.array([2.0])))}
+        steps = None
+    elif tid == "direct":
+        spec = {"x": ("CWMH", dict(scale=0.8, initial_point=X0[2].copy())), "b": ("Direct", dict(initial_point=X0[3].copy()))}
+        steps = {"x": 2}
+    elif setup.endswith("ula"):             # (the stateful CWMH does not run on 1-D targets: CWMH is a block of `direct`)
+        spec = {"d": ("MH", dict(initial_point=np.array([3.0]), scale=0.8)),
+                "s": ("PCN", dict(initial_point=np.array([3.0]), scale=0.5)),
+                "x": ("ULA", dict(initial_point=np.array([0.25]), scale=0.05))}
+        steps = {"s": 2}
+    elif setup.endswith("nuts"):
+        spec = {"d": ("MH", dict(initial_point=np.array([3.0]), scale=0.8)),
+                "s": ("PCN", dict(initial_point=np.array([3.0]), scale=0.5)),
+                "x": ("NUTS", dict(initial_point=np.array([0.25]), max_depth=2, step_size=0.2))}
+        steps = None
+    elif setup.endswith("scalar_x0"):       # scalar initial points as in the repository's own HybridGibbs tests
+        spec = {"d": ("MH", dict(initial_point=3, scale=0.8)), "s": ("PCN", dict(initial_point=3, scale=0.5)),
+                "x": ("MALA", dict(initial_point=0, scale=0.05))}
+        steps = None
+    else:
+        spec = {"d": ("MH", dict(initial_point=np.array([3.0]), scale=0.8)),
+                "s": ("PCN", dict(initial_point=np.array([3.0]), scale=0.5)),
+                "x": ("MALA", dict(initial_point=np.array([0.0]), scale=0.05))}
+        steps = {"d": 2, "x": 1}
+    return spec, steps
+
+
 def _hybrid_strategy(setup):
     """(freshly constructed block samplers {parameter: sampler}, steps) of a HybridGibbs set-up.  Every call constructs
     new sampler objects from the same constructor arguments (the 'twins' of the block samplers of another call)."""
     from cuqi.experimental import mcmc
-    tid = setup.split("/")[1].split("-")[0]
-    if tid == "hier":
-        strategy = {"x": mcmc.LinearRTO(maxit=4), "d": mcmc.Conjugate(), "l": mcmc.Conjugate()}
-        steps = None
-    elif tid == "reg_hier":
-        strategy = {"x": mcmc.RegularizedLinearRTO(maxit=25), "d": mcmc.Conjugate(), "l": mcmc.Conjugate()}
-        steps = None
-    elif tid == "lmrf_hier":
-        strategy = {"x": mcmc.UGLA(maxit=4, initial_point=X0[3].copy()), "s": mcmc.ConjugateApprox()}
-        steps = None
-    elif tid == "direct":
-        strategy = {"x": mcmc.CWMH(scale=0.8, initial_point=X0[2].copy()), "b": mcmc.Direct()}
-        steps = {"x": 2}
-    elif setup.endswith("ula"):             # (the stateful CWMH does not run on 1-D targets: CWMH is a block of `direct`)
-        strategy = {"d": mcmc.MH(initial_point=np.array([3.0]), scale=0.8),
-                    "s": mcmc.PCN(initial_point=np.array([3.0]), scale=0.5),
-                    "x": mcmc.ULA(initial_point=np.array([0.25]), scale=0.05)}
-        steps = {"s": 2}
-    elif setup.endswith("nuts"):
-        strategy = {"d": mcmc.MH(initial_point=np.array([3.0]), scale=0.8),
-                    "s": mcmc.PCN(initial_point=np.array([3.0]), scale=0.5),
-                    "x": mcmc.NUTS(initial_point=np.array([0.25]), max_depth=2, step_size=0.2)}
-        steps = None
-    elif setup.endswith("scalar_x0"):       # scalar initial points as in the repository's own HybridGibbs tests
-        strategy = {"d": mcmc.MH(initial_point=3, scale=0.8), "s": mcmc.PCN(initial_point=3, scale=0.5),
-                    "x": mcmc.MALA(initial_point=0, scale=0.05)}
-        steps = None
-    else:
-        strategy = {"d": mcmc.MH(initial_point=np.array([3.0]), scale=0.8),
-                    "s": mcmc.PCN(initial_point=np.array([3.0]), scale=0.5),
-                    "x": mcmc.MALA(initial_point=np.array([0.0]), scale=0.05)}
-        steps = {"d": 2, "x": 1}
+    spec, steps = _hybrid_spec(setup)
+    strategy = {}
+    for p, (cls, kw) in spec.items():
+        kw = dict(kw)
+        if isinstance(kw.get("initial_point"), np.ndarray):
+            kw["initial_point"] = kw["initial_point"].copy()
+        strategy[p] = getattr(mcmc, cls)(**kw)
     return strategy, steps
 
 
@@ -897,6 +950,8 @@ def eval_stateful(cell, res):
                 elif len(chain) == total and not all(_same(v, chain[i]) for (v, _), i in zip(log.entries, range(total))):
                     res.fail("C14|%s|mixed-calls|callback-state" % loop_comp, "%s: a state handed to the call-back is not the chain "
                              "entry at its index (set-up %s)" % (desc, setup))
+        # ---- constructor arguments initial_point / callback in non-default form, by every route they can reach the sampler
+        probe_constructor_args(setup, cat, k, seed, maxn, res, comp, loop_comp)
         # ---- re-initialising returns the sampler to its constructed configuration - after EVERY kind of use of the object:
         # the re-initialised object on the reference stream == the freshly constructed sampler of the reference run
         refail = {}
@@ -921,6 +976,132 @@ def eval_stateful(cell, res):
                       "state_keys": sorted(refs_[maxn].state or {})}
     finally:
         shutil.rmtree(tmpdir, ignore_errors=True)
+
+
+# a non-default initial point per target (feasible where the target is constrained; neither the ones- nor the zeros-vector)
+# for the set-ups whose constructor arguments do not name one, and a second one (all entries positive) per dimension
+PROBE_IP = {"gauss": X0[2], "gauss1": X0[1], "post": X0[2], "multi": X0[2], "reg": np.array([0.5, 0.25]),
+            "reg3": np.array([0.25, 0.5, 0.75]), "lmrf": X0[3], "conj": np.array([2.0]), "lmrf_gamma": np.array([2.0])}
+ALT_IP = {1: np.array([0.75]), 2: np.array([0.125, 0.75]), 3: np.array([0.5, 0.125, 0.375])}
+ARG_ROUTES = ("constructor", "assigned", "reassigned", "no-callback")
+
+
+def _run_arg_route(setup, cat, k, seed, n, route, v, w):
+    """warmup(k);sample(n) of a sampler that received initial_point = v and the call-back by `route`:
+    constructor: both are constructor arguments; assigned: constructed without, both assigned to the object before its
+    first use; reassigned: constructed with another point (w) and another call-back, then both assigned; no-callback:
+    initial_point by constructor, no call-back at all.
+    -> (Obs, current_point right after initialize(), current_point after the final reinitialize())"""
+    from cuqi.experimental import mcmc
+    o = Obs()
+    log = Log()
+    cls, tid, kwf = _stateful_setups()[setup]
+    at_init = after_reinit = None
+    stage = "construct"
+    try:
+        kw = kwf()
+        kw.pop("initial_point", None)
+        C = getattr(mcmc, cls)
+        if route == "constructor":
+            s = C(TARGETS[tid](cat), initial_point=(v if np.ndim(v) == 0 else np.array(v, copy=True)), callback=log, **kw)
+        elif route == "no-callback":
+            s = C(TARGETS[tid](cat), initial_point=(v if np.ndim(v) == 0 else np.array(v, copy=True)), **kw)
+        elif route == "assigned":
+            s = C(TARGETS[tid](cat), **kw)
+            s.initial_point = v if np.ndim(v) == 0 else np.array(v, copy=True)
+            s.callback = log
+        else:
+            s = C(TARGETS[tid](cat), initial_point=w.copy(), callback=Log(), **kw)
+            s.initial_point = v if np.ndim(v) == 0 else np.array(v, copy=True)
+            s.callback = log
+        _seed_streams(seed)
+        o.segs.append((0, log))
+        stage = "initialize"
+        s.initialize()
+        at_init = np.array(np.asarray(s.current_point, dtype=float), copy=True).ravel()
+        if k > 0:
+            stage = "warmup"
+            s.warmup(k)
+            o.ops += 1
+        if n > 0:
+            stage = "sample"
+            s.sample(n)
+            o.ops += 1
+        o.transitions = k + n
+        o.rng = _rng_state()
+        stage = "get_samples"
+        got = _read(s, k + n, o)
+        o.chain = [] if got is None else _chain_of(got)
+        o.state = {key: _val(x) for key, x in s.get_state()["state"].items()}
+        if route == "constructor":
+            stage = "reinitialize"
+            s.reinitialize()
+            after_reinit = np.array(np.asarray(s.current_point, dtype=float), copy=True).ravel()
+    except Exception as e:
+        o.error = (stage, "%s: %s" % (type(e).__name__, str(e)[:200]))
+    return o, at_init, after_reinit
+
+
+def probe_constructor_args(setup, cat, k, seed, n, res, comp, loop_comp):
+    """The chain starts from the initial point the user gave - whichever way it was given - and re-initialising returns to
+    it; the call-back receives every state whichever way it was given, and its absence does not change the chain."""
+    cls, tid, kwf = _stateful_setups()[setup]
+    given = kwf().get("initial_point")
+    v = given if given is not None else PROBE_IP[tid]
+    vv = np.atleast_1d(np.asarray(v, dtype=float)).ravel()
+    w = ALT_IP[vv.size]
+    runs = {}
+    ip_bad = set()
+    for route in ARG_ROUTES:
+        o, at_init, after_reinit = _run_arg_route(setup, cat, k, seed, n, route, v, w)
+        runs[route] = o
+        res.transitions += o.ops + 1
+        res.traces += 1
+        res.state(("constructor-args", route, k))
+        res.count("stateful-arg:%s:initial_point=%s" % (cls, "constructor" if route == "no-callback" else route))
+        res.count("stateful-arg:%s:callback=%s" % (cls, "none" if route == "no-callback" else route))
+        where = "initial_point = %s and call-back given by route '%s' (set-up %s, warm-up %d, seed %d)" % (vv, route, setup, k, seed)
+        if o.error is not None:
+            res.fail("C14|%s|constructor-arguments|raises:%s,route=%s" % (comp, o.error[0], route),
+                     "operation %s raised %s; %s" % (o.error[0], o.error[1], where), focus={"route": route})
+            continue
+        res.evaluations += 1
+        if not _same(at_init, vv):
+            ip_bad.add(route)
+            if not (route == "no-callback" and "constructor" in ip_bad):       # (the same route for the initial point)
+                res.fail("C14|%s|initialize|initial-point,route=%s" % (comp, route), "after initialize() the sampler is at %s; %s"
+                         % (at_init, where), focus={"route": route})
+            continue
+        if after_reinit is not None:
+            res.evaluations += 1
+            if not _same(after_reinit, vv):
+                res.fail("C14|%s|reinitialize|initial-point" % comp, "after warmup(%d);sample(%d);reinitialize() the sampler is at "
+                         "%s, it was constructed with %s" % (k, n, after_reinit, where), focus={"route": route})
+    ref = runs["constructor"]
+    if ref.error is not None or "constructor" in ip_bad:        # no reference: differences would be consequences
+        return
+    for facet, msg in _judge_stateful(ref, ref, k, n).items():      # list model of the record (call-back by constructor)
+        res.fail("C14|%s|constructor-arguments|%s,route=constructor" % (loop_comp if facet in LOOP_FACETS else comp, facet),
+                 "%s; initial_point = %s by constructor (set-up %s, warm-up %d, seed %d)" % (msg, vv, setup, k, seed))
+        return
+    for route in ARG_ROUTES[1:]:
+        o = runs[route]
+        if o.error is not None or route in ip_bad:
+            continue
+        res.evaluations += 1
+        if route == "no-callback":          # no log to compare: chain, state, stream
+            bad = {}
+            if not _eq_chain(o.chain, ref.chain):
+                bad["chain"] = "the chain recorded without a call-back differs from the chain recorded with one"
+            elif o.rng != ref.rng:
+                bad["stream"] = _rng_diff(o.rng, ref.rng)
+        else:
+            bad = _judge_stateful(o, ref, k, n)
+        for facet, msg in bad.items():
+            res.fail("C14|%s|constructor-arguments|%s,route=%s" % (loop_comp if facet in LOOP_FACETS else comp, facet, route),
+                     "%s; compared: the same run with initial_point = %s and the call-back given to the constructor (set-up %s, "
+                     "warm-up %d, seed %d)" % (msg, vv, setup, k, seed), focus={"route": route})
+            break
 
 
 # every kind of use a stand-alone sampler object can have had before reinitialize() is called on it
@@ -1260,8 +1441,13 @@ def run_legacy(setup, cat, seed, method, N, Nb):
     cls, tid, kw, _ = _legacy_setups()[setup]
     stage = "construct"
     try:
-        s = getattr(cuqi.sampler, cls)(TARGETS[tid](cat), callback=log, **kw())
-        o.x0 = np.array(np.asarray(s.x0, dtype=float), copy=True).ravel()
+        kwargs = kw()
+        given = kwargs.get("x0")
+        given = None if given is None else np.array(np.asarray(given, dtype=float), copy=True).ravel()
+        s = getattr(cuqi.sampler, cls)(TARGETS[tid](cat), callback=log, **kwargs)
+        # the initial point in effect: the one handed to the constructor (kept by the harness, NOT read back from the
+        # sampler); only when none was given the point the sampler announces as its x0
+        o.x0 = given if given is not None else np.array(np.asarray(s.x0, dtype=float), copy=True).ravel()
         _seed_streams(seed)
         stage = method
         out = getattr(s, method)(N, Nb)
@@ -1377,19 +1563,244 @@ def eval_legacy(cell, res):
 
 
 # ----------------------------------------------------------------------------------------
+# stateless interface: the initial point in effect x the route by which it (and the call-back) reached the sampler
+# ----------------------------------------------------------------------------------------
+_U2 = (np.array([0.5, -0.25]), np.array([-0.75, 0.375]))
+_P2 = (np.array([0.5, 0.25]), np.array([0.125, 0.75]))            # feasible for the non-negativity constraint
+_U3 = (np.array([0.25, -0.5, 0.75]), np.array([-0.5, 0.125, 0.375]))
+
+
+def _legacy_x0_setups():
+    """One set-up per class of cuqi.sampler that has the sample(N, Nb) / x0 / callback interface:
+    class -> (target id, constructor arguments WITHOUT x0 and callback, two distinct non-default feasible initial points
+    (neither the ones- nor the zeros-vector the classes default to), burn-in equivalence claimed)."""
+    return {
+        "MH": ("gauss", lambda: dict(scale=0.9), _U2, True),
+        "CWMH": ("gauss", lambda: dict(scale=0.9), _U2, True),
+        "pCN": ("post", lambda: dict(scale=0.6), _U2, True),
+        "ULA": ("gauss", lambda: dict(scale=0.2), _U2, True),
+        "MALA": ("gauss", lambda: dict(scale=0.8), _U2, True),
+        "NUTS": ("gauss", lambda: dict(max_depth=3, adapt_step_size=0.35), _U2, True),
+        "LinearRTO": ("post", lambda: dict(), _U2, True),
+        "RegularizedLinearRTO": ("reg", lambda: dict(maxit=25), _P2, True),
+        "UGLA": ("lmrf", lambda: dict(maxit=4), _U3, True),
+    }
+
+
+# classes exported by cuqi.sampler without that interface (no x0, no callback, no sample()): abstract bases, and the
+# direct samplers / the Gibbs sampler, which are covered by the legacy Gibbs cells (LEGACY_GIBBS)
+LEGACY_NO_CHAIN_API = {"Sampler": "abstract", "ProposalBasedSampler": "abstract", "Conjugate": "gibbs-block",
+                       "ConjugateApprox": "gibbs-block", "Gibbs": "gibbs"}
+
+X0_ROUTES = ("constructor", "assigned", "reassigned", "default")
+# lengths of the first and of the second run of ONE sampler object; (N, Nb) of the burn-in runs, each against the run
+# (N+Nb, 0) of a twin on the same stream (the adaptive loops of MH/CWMH/pCN adapt every int(0.1*N) steps: N >= 10 as in ADAPT_GRID)
+X0_RUNS = {"sample": (3, 4), "sample_adapt": (10, 12)}
+X0_BURN = {"sample": ((3, 2), (2, 1)), "sample_adapt": ((10, 2), (10, 5))}
+ROUTE_FACETS = ("first-entry", "second-run-length", "second-run-callback-count", "second-run-callback-index",
+                "second-run-first-entry", "earlier-chain-altered-by-second-run", "burn-in")
+X0_PRIORITY = ["length", "callback-count", "callback-index", "stored-entry-altered", "raises"] + list(ROUTE_FACETS)
+
+
+def _make_legacy_x0(cls, tid, cat, kw, route, v, log):
+    """-> (sampler, the initial point in effect as the harness knows it).  constructor: x0 and callback are constructor
+    arguments; assigned: both are assigned to the constructed object; reassigned: constructed with another point and another
+    call-back, then both assigned; default: no x0 given (in effect: what the sampler announces as x0 after construction)."""
+    import cuqi
+    C = getattr(cuqi.sampler, cls)
+    t = TARGETS[tid](cat)
+    v1, v2 = v
+    if route == "constructor":
+        s = C(t, x0=v1.copy(), callback=log, **kw())
+    elif route == "assigned":
+        s = C(t, **kw())
+        s.x0 = v1.copy()
+        s.callback = log
+    elif route == "reassigned":
+        s = C(t, x0=v2.copy(), callback=Log(), **kw())
+        s.x0 = v1.copy()
+        s.callback = log
+    else:
+        s = C(t, callback=log, **kw())
+        return s, np.array(np.asarray(s.x0, dtype=float), copy=True).ravel()
+    return s, v1.copy()
+
+
+def _legacy_obs(s, x_eff, log, seed, method, N, Nb):
+    """One run method(N, Nb) of the given sampler object on the stream `seed` (call-back log emptied first)."""
+    o = LObs()
+    log.entries = []
+    o.x0 = x_eff
+    try:
+        _seed_streams(seed)
+        out = getattr(s, method)(N, Nb)
+        o.raw = out
+        o.chain = _chain_of(out) if hasattr(out, "samples") else [np.array(np.asarray(out, dtype=float), copy=True).ravel()]
+        o.log = log.entries
+    except Exception as e:
+        o.error = (method, "%s: %s" % (type(e).__name__, str(e)[:200]))
+    return o
+
+
+def eval_legacy_x0(cell, res):
+    """Per class: (route of the initial point and the call-back) x (sample, sample_adapt) x {first run, second run of the same
+    object, burn-in runs}.  Per method only the first failing facet in X0_PRIORITY order (then route order) is reported."""
+    cls, cat, seed = cell["cls"], cell["cat"], cell["seed"]
+    tid, kw, v, burnin_equiv = _legacy_x0_setups()[cls]
+    comp = "cuqi.sampler." + cls
+    moved = False
+    for method in ("sample", "sample_adapt"):
+        found = {}
+
+        def note(facet, route, msg, **focus):
+            key = (X0_PRIORITY.index(facet), X0_ROUTES.index(route) if route in X0_ROUTES else len(X0_ROUTES))
+            if key not in found:
+                found[key] = (facet, route, msg, focus)
+
+        for route in X0_ROUTES:
+            res.state(("x0", method, route))
+            res.count("legacy-x0:%s:%s" % (cls, route))
+            res.count("legacy-callback:%s:%s" % (cls, {"assigned": "assigned", "reassigned": "reassigned"}.get(route, "constructor")))
+            log = Log()
+            try:
+                s, x_eff = _make_legacy_x0(cls, tid, cat, kw, route, v, log)
+            except Exception as e:
+                note("raises", route, "construction raised %s: %s" % (type(e).__name__, str(e)[:160]))
+                continue
+            if x_eff.size != int(s.dim):
+                note("first-entry", route, "the sampler announces the initial point %s for a target of dimension %d" % (x_eff, s.dim))
+                continue
+            # ---- first run
+            N1, N2 = X0_RUNS[method]
+            o1 = _legacy_obs(s, x_eff, log, seed, method, N1, 0)
+            res.transitions += N1 - 1
+            if o1.error is not None:
+                note("raises", route, "%s(%d, 0) raised %s" % (method, N1, o1.error[1]))
+                continue
+            res.traces += 1
+            res.evaluations += 1
+            moved = moved or len({tuple(np.round(x, 12)) for x in o1.chain}) > 1
+            bad = _judge_legacy(o1, N1, 0, None, False)
+            if bad:
+                note(bad[0], route, "%s (initial point %s by route '%s')" % (bad[1], x_eff, route), N=N1, Nb=0)
+            copy1 = [x.copy() for x in o1.chain]
+            # ---- second run of the same object: a new chain that begins with the initial point again
+            o2 = _legacy_obs(s, x_eff, log, seed + 1, method, N2, 0)
+            res.transitions += N2 - 1
+            if o2.error is not None:
+                note("raises", route, "second run %s(%d, 0) raised %s" % (method, N2, o2.error[1]))
+            else:
+                res.traces += 1
+                res.evaluations += 2
+                bad = _judge_legacy(o2, N2, 0, None, False)
+                if bad and bad[0] in ("length", "callback-count", "callback-index", "first-entry"):
+                    note("second-run-" + bad[0], route, "second run of the same sampler object: %s (initial point %s by route "
+                         "'%s')" % (bad[1], x_eff, route), N=N2, Nb=0)
+                elif bad:
+                    note(bad[0], route, "second run of the same sampler object: " + bad[1], N=N2, Nb=0)
+                if not _eq_chain(_chain_of(o1.raw), copy1):
+                    note("earlier-chain-altered-by-second-run", route, "the chain returned by the first %s(%d, 0) changed during "
+                         "the second run of the same sampler object" % (method, N1), N=N2, Nb=0)
+            # ---- burn-in: the run (N, Nb) is the tail of the run (N+Nb, 0) of the same configuration on the same stream
+            for N, Nb in X0_BURN[method]:
+                obs = []
+                for n_, nb_ in ((N, Nb), (N + Nb, 0)):
+                    lg = Log()
+                    try:
+                        s_, xe_ = _make_legacy_x0(cls, tid, cat, kw, route, v, lg)
+                    except Exception:
+                        obs.append(None)
+                        continue
+                    obs.append(_legacy_obs(s_, xe_, lg, seed, method, n_, nb_))
+                    res.transitions += n_ + nb_ - 1
+                if any(x is None or x.error is not None for x in obs):
+                    res.refused += 1
+                    continue
+                res.traces += 2
+                res.evaluations += 2
+                res.state(("x0-burn", method, route, N, Nb))
+                for x, (n_, nb_), rf in ((obs[1], (N + Nb, 0), None), (obs[0], (N, Nb), obs[1])):
+                    bad = _judge_legacy(x, n_, nb_, rf, burnin_equiv and method == "sample")
+                    if bad:
+                        note(bad[0], route, "%s (initial point %s by route '%s')" % (bad[1], x.x0, route), N=n_, Nb=nb_)
+                        break
+        if found:
+            facet, route, msg, focus = found[min(found)]
+            sig = "C14|%s|%s|%s" % (comp, method, ("%s,x0=%s" % (facet, route)) if facet in ROUTE_FACETS else facet)
+            res.fail(sig, "%s (class %s, seed %d; also failing: %s)" % (
+                msg, cls, seed, sorted({"%s/%s" % (f, r) for f, r, _, _ in found.values()} - {"%s/%s" % (facet, route)}) or "nothing"),
+                focus=dict(focus, route=route))
+    # ---- step(x): one transition from the point handed over (the route by which the legacy Gibbs sampler sets the initial
+    # point of its block samplers) == the second state of sample(2, 0) of a sampler constructed with x0 = x, same stream
+    import cuqi
+    v1, v2 = v
+    for how in ("default", "constructor"):
+        res.state(("x0", "step", how))
+        res.count("legacy-x0:%s:step-argument" % cls)
+        try:
+            C = getattr(cuqi.sampler, cls)
+            s = C(TARGETS[tid](cat), **kw()) if how == "default" else C(TARGETS[tid](cat), x0=v2.copy(), **kw())
+            r = C(TARGETS[tid](cat), x0=v1.copy(), **kw())
+            _seed_streams(seed)
+            want = _chain_of(r.sample(2, 0))
+            _seed_streams(seed)
+            got = np.array(np.asarray(s.step(v1.copy()), dtype=float), copy=True).ravel()
+        except Exception as e:
+            res.refused += 1
+            res.outcomes.add("%s:step-refused:%s" % (cls, type(e).__name__))
+            continue
+        res.transitions += 2
+        res.traces += 1
+        res.evaluations += 1
+        if len(want) == 2 and _same(want[0], v1) and not _same(got, want[1]):     # (a reference not starting at x is judged above)
+            res.fail("C14|%s|step|transition-from-argument" % comp, "step(x) of a sampler constructed with %s x0 returned %s, "
+                     "the transition from x = %s made by sample(2, 0) on the same stream leads to %s (class %s, seed %d)"
+                     % ("the default" if how == "default" else "another", got, v1, want[1], cls, seed), focus={"constructed": how})
+            break
+    res.outcomes.add("%s:x0-routes:moved=%s" % (cls, moved))
+    if not moved:
+        res.nontrivial = False
+
+
+# ----------------------------------------------------------------------------------------
 # legacy Gibbs: N then M (with and without warm-up in the first call), length, returned chains immutable
 # ----------------------------------------------------------------------------------------
+def _legacy_gibbs_setups():
+    """name -> (target id, {parameter(s): (class of cuqi.sampler, keyword arguments)}); together the set-ups use every class of
+    cuqi.sampler as a block sampler (the Gibbs sampler constructs a block sampler per step and sets its initial point through
+    step(x); classes that need constructor arguments are handed over as a factory, as a user would)."""
+    return {
+        "Gibbs/rto-conjugate": ("hier", {"x": ("LinearRTO", {}), ("d", "l"): ("Conjugate", {})}),
+        "Gibbs/cwmh-conjugate": ("hier", {"x": ("CWMH", {}), ("d", "l"): ("Conjugate", {})}),
+        "Gibbs/regrto-conjugate": ("reg_hier", {"x": ("RegularizedLinearRTO", {}), ("d", "l"): ("Conjugate", {})}),
+        "Gibbs/ugla-conjugateapprox": ("lmrf_hier", {"x": ("UGLA", {"maxit": 4}), "s": ("ConjugateApprox", {})}),
+        "Gibbs/mh-pcn-mala": ("hier_mh", {"d": ("MH", {"scale": 0.8}), "s": ("pCN", {"scale": 0.5}),
+                                          "x": ("MALA", {"scale": 0.05})}),
+        "Gibbs/mh-pcn-ula": ("hier_mh", {"d": ("MH", {"scale": 0.8}), "s": ("pCN", {"scale": 0.5}),
+                                         "x": ("ULA", {"scale": 0.05})}),
+        "Gibbs/mh-pcn-nuts": ("hier_mh", {"d": ("MH", {"scale": 0.8}), "s": ("pCN", {"scale": 0.5}),
+                                          "x": ("NUTS", {"max_depth": 2, "adapt_step_size": 0.2})}),
+    }
+
+
+def _block_factory(cls, kwargs):
+    import cuqi
+    C = getattr(cuqi.sampler, cls)
+    if not kwargs:
+        return C                                    # the class itself, as in the library's documentation
+
+    def make(target):
+        return C(target, **kwargs)
+    return make
+
+
 def _make_gibbs(setup, cat):
     import cuqi
-    target = t_hier(cat)
-    if setup == "Gibbs/rto-conjugate":
-        strategy = {"x": cuqi.sampler.LinearRTO, ("d", "l"): cuqi.sampler.Conjugate}
-    else:
-        strategy = {"x": cuqi.sampler.CWMH, ("d", "l"): cuqi.sampler.Conjugate}
-    return cuqi.sampler.Gibbs(target, strategy)
+    tid, blocks = _legacy_gibbs_setups()[setup]
+    return cuqi.sampler.Gibbs(TARGETS[tid](cat), {p: _block_factory(c, k) for p, (c, k) in blocks.items()})
 
 
-LEGACY_GIBBS = ["Gibbs/rto-conjugate", "Gibbs/cwmh-conjugate"]
+LEGACY_GIBBS = list(_legacy_gibbs_setups())
 
 
 def _compositions(total_max, parts=(1, 2, 3)):
@@ -1438,8 +1849,17 @@ def eval_gibbs(cell, res):
             seen.add(sig)
             res.fail(sig, msg + " (set-up %s, seed %d)" % (setup, seed))
 
-    g0 = _make_gibbs(setup, cat)
-    s_dims = {p: g0.target.get_density(p).dim for p in g0.par_names}
+    try:
+        g0 = _make_gibbs(setup, cat)
+        s_dims = {p: g0.target.get_density(p).dim for p in g0.par_names}
+    except Exception as e:
+        res.refused += 1
+        res.nontrivial = False
+        res.outcomes.add("%s:refused:%s" % (setup, type(e).__name__))
+        return
+    res.count("legacy-class:Gibbs")
+    for c, _ in _legacy_gibbs_setups()[setup][1].values():
+        res.count("legacy-gibbs-block:" + c)
     for Nb in (0, 1, 2):
         refs_ = {}
         for n in range(1, maxn + 2):
@@ -1569,6 +1989,26 @@ def eval_record_hybrid(cell, res):
         return
     nmax = max(dims.values()) + 2
     res.outcomes.add("%s:dims=%s" % (setup, sorted(set(dims.values()))))
+    # the Gibbs chain starts at the initial points the block samplers were constructed with (the state the sampler is in
+    # before its first transition), and the first transition of every block leaves from there: observable as current_samples
+    try:
+        start = _current_of(g)
+    except Exception as e:
+        start = None
+        fail("construct", "raises", 0, 1, "current_samples after construction: %s: %s" % (type(e).__name__, str(e)[:120]))
+    for p_, (bcls, bkw) in sorted(_hybrid_spec(setup)[0].items()):
+        given = bkw.get("initial_point")
+        res.count("hybrid-block-arg:%s:initial_point=%s" % (bcls, "default" if given is None else "constructor"))
+        if given is None or start is None:
+            continue
+        res.evaluations += 1
+        res.state(("gibbs-initial-point", bcls))
+        if not _same(start[p_], np.atleast_1d(np.asarray(given, dtype=float)).ravel()):
+            sig = "C14|%s|construct|initial-point,block=%s" % (comp, bcls)
+            if sig not in seen:
+                seen.add(sig)
+                res.fail(sig, "before the first transition the Gibbs sampler is at %r = %s, its %s block sampler was constructed "
+                         "with initial_point = %s (set-up %s)" % (p_, start[p_], bcls, given, setup), focus={"block": bcls})
     stepwise = None
     for kw in RECORD_WARMUPS:
         how = "warmup(%d) then single sample(1) calls" % kw
@@ -1708,6 +2148,9 @@ def cells(tier, seed):
     for setup in _legacy_setups():
         for sd in seeds:
             out.append({"iface": "stateless", "setup": setup, "seed": sd + int(seed), "cat": cat})
+    for cls in _legacy_x0_setups():
+        for sd in seeds:
+            out.append({"iface": "stateless-x0", "cls": cls, "seed": sd + int(seed), "cat": cat})
     for setup in LEGACY_GIBBS:
         for sd in seeds:
             out.append({"iface": "gibbs", "setup": setup, "seed": sd + int(seed), "cat": cat, "maxn": maxn})
@@ -1723,6 +2166,7 @@ def cells(tier, seed):
 
 def eval_cell(cell):
     res = CellResult(cell)
-    {"stateful": eval_stateful, "hybridgibbs": eval_hybrid, "stateless": eval_legacy, "gibbs": eval_gibbs,
+    {"stateful": eval_stateful, "hybridgibbs": eval_hybrid, "stateless": eval_legacy, "stateless-x0": eval_legacy_x0,
+     "gibbs": eval_gibbs,
      "record-hybridgibbs": eval_record_hybrid, "record-stateful": eval_record_stateful}[cell["iface"]](cell, res)
     return res
